@@ -130,14 +130,17 @@ fn sized<M: Big>(rng: &mut Rng, target: usize) -> M {
 fn plan<M: Big>(rng: &mut Rng, quota: usize) -> Vec<M> {
     let fin_id = digest(&enc(&M::fin()));
     let mut v = Vec::new();
+    let mut nsized = 0usize;
     while v.len() + 1 < quota {
         let m = match rng.below(10) {
-            0..=4 => {
+            0..=5 => {
+                // the offsets around a segment boundary are walked through in turn: +1, 0, -1, +2, -2
                 let k = rng.range(1, 3) as i64;
-                let d = rng.range(0, 4) as i64 - 2;
+                let d = [1i64, 0, -1, 2, -2][nsized % 5];
+                nsized += 1;
                 sized::<M>(rng, (k * SEG as i64 + d) as usize)
             }
-            5 => {
+            6 => {
                 let extra = rng.range(3, 70_000) as usize;
                 sized::<M>(rng, 3 * SEG + extra)
             }
@@ -331,7 +334,7 @@ async fn run_plexers(rng: &mut Rng, run: u64, quota: usize, limits: Limits) -> V
         let proto = [2u16, 3, 4, 5, 6, 7, 9][i] + if rng.chance(1, 4) { 0x100 } else { 0 };
         let client_on_a = rng.bool();
         let mode = *rng.pick(&[Mode::AtoB, Mode::BtoA, Mode::PingPong]);
-        let q = rng.range(4, quota as u64) as usize;
+        let q = rng.range((quota as u64 / 2 + 2).min(quota as u64), quota as u64) as usize;
         macro_rules! go {
             ($t:ty) => {
                 spawn_pair::<$t>(&mut pa, &mut pb, proto, client_on_a, mode, q, rng, &sh, &mut pending, &mut chans)
@@ -401,11 +404,13 @@ async fn run_bearer2(rng: &mut Rng, run: u64, quota: usize, limits: Limits) -> V
         let peer_role = if mode == 0 { "s" } else { "c" };
         // plan: interleave the three protocols message by message
         let mut msgs: Vec<AnyMessage> = Vec::new();
+        let mut nsized = 0usize;
         for _ in 0..quota {
             let c = *rng.pick(&protos);
             let m = match rng.below(10) {
-                0..=4 => {
-                    let target = rng.range(1, 3) as usize * SEG + rng.range(0, 4) as usize - 2;
+                0..=5 => {
+                    let target = (rng.range(1, 3) as i64 * SEG as i64 + [1i64, 0, -1, 2, -2][nsized % 5]) as usize;
+                    nsized += 1;
                     let mut n = target - 40;
                     let mut m = big(c, rng.bytes(n));
                     for _ in 0..6 {
@@ -418,7 +423,7 @@ async fn run_bearer2(rng: &mut Rng, run: u64, quota: usize, limits: Limits) -> V
                     }
                     m
                 }
-                5 => {
+                6 => {
                     let extra = rng.below(70_000) as usize;
                     big(c, rng.bytes(3 * SEG + extra))
                 }
